@@ -116,8 +116,8 @@ func isDirGuardOn(cond ssa.Value, entry ssa.Value) bool {
 
 func ruleGL1(c *Ctx) *rule {
 	r := &rule{ID: "GL1", Engine: "E2", Floor: 1,
-		Statement: "in every callback passed to doublestar.GlobWalk, a return of SkipDir has the necessary guard IsDir() == true of the callback's entry; SkipAll is never returned",
-		Necessity: "library contract (doublestar v4 globwalk.go): SkipDir returned for a non-directory entry abandons the rest of the parent directory's listing, so every later sibling that matches the pattern is silently omitted"}
+		Statement: "no callback passed to doublestar.GlobWalk ever returns SkipDir or SkipAll",
+		Necessity: "library contract (doublestar v4.7.1 globwalk.go): outside a `**` walk (globDirWalk) a SkipDir from the callback makes the library return from the directory listing for ANY entry — file or directory — so every later sibling that matches is silently omitted; for the bare pattern `**` the first callback is for \".\" and a SkipDir there abandons the whole walk; SkipAll ends the walk everywhere"}
 	for _, gw := range c.globWalks() {
 		r.note("GlobWalk at %s, callback %s", c.ipos(gw.call), fname(gw.cb))
 		if gw.cb == nil || len(gw.cb.Params) < 2 {
@@ -138,13 +138,17 @@ func ruleGL1(c *Ctx) *rule {
 				r.bad(key, pos, "SkipAll ends the whole walk: every match after this entry is omitted")
 				return
 			}
+			isDirOnly := false
 			for _, g := range gs {
 				if isDirGuardOn(g.cond, entry) && g.pol {
-					r.ok(key, pos, "returned only for directory entries")
-					return
+					isDirOnly = true
 				}
 			}
-			r.bad(key, pos, "SkipDir can be returned for a file entry (no IsDir() guard): the remaining entries of that file's directory are dropped from the expansion", describeGuards(c, gs)...)
+			if isDirOnly {
+				r.bad(key, pos, "SkipDir is returned for (hidden) directories: when the directory matches a plain last segment of the pattern (`*`, `.*`) doublestar stops listing its parent, and for a bare `**` the root \".\" itself is skipped, so matching entries are omitted", describeGuards(c, gs)...)
+			} else {
+				r.bad(key, pos, "SkipDir can be returned for a file entry: the remaining entries of that file's directory are dropped from the expansion", describeGuards(c, gs)...)
+			}
 		}
 		for _, ret := range returnsOf(gw.cb) {
 			if len(ret.Results) == 0 {
